@@ -1,4 +1,6 @@
 import CgtModel.Matcher
+import CgtModel.Report
+import CgtModel.Fx
 /-! # The model's arithmetic is the source's arithmetic
 
 `tools/extract.py` (group `formulas`) reads, on every run, the arithmetic of the matcher out of the Rust —
@@ -158,5 +160,39 @@ theorem ratio_effect_is_source (k r : Rat) :
 theorem bnb_gain_is_source (date : Date) (m cost : Rat) (s : Trade) (acq : Option Date) :
     (mkLeg date .bedAndBreakfast m cost s acq).gain = Gen.bnb_gain (mkLeg date .bedAndBreakfast m cost s acq).net cost := by
   simp [mkLeg, Gen.bnb_gain]
+
+
+/-! ### the year's totals (calculator.rs) and the conversion of foreign amounts (cgt-money) -/
+
+/-- `calculate_totals`: one disposal's net result joins the gains or the losses -/
+theorem totals_is_source (d : Disposal) (ds : List Disposal) :
+    totals (d :: ds) = (Gen.totals_gain_step (totals ds).1 d.netGain, Gen.totals_loss_step (totals ds).2 d.netGain) := by
+  simp only [totals, Gen.totals_gain_step, Gen.totals_loss_step, rabs]
+  by_cases h1 : d.netGain > 0
+  · simp [h1]
+  · by_cases h2 : d.netGain < 0
+    · simp [h1, h2]
+    · simp [h1, h2]
+
+/-- the net gain of a year's summary is total gains less total losses, in both report builders -/
+theorem netGain_is_source (ex : List (Int × Rat)) (l : List Tx) (y : Int) (ds : List Disposal) (sm : YearSummary)
+    (h : mkSummary ex l y ds = .ok sm) : sm.netGain = Gen.net_gain sm.totalGain sm.totalLoss := by
+  unfold mkSummary at h
+  split at h
+  · cases h
+  · simp only [Except.ok.injEq] at h
+    subst h
+    rfl
+
+/-- `CurrencyAmount::to_gbp`: sterling as it is, zero without a rate, otherwise amount ÷ rate per pound -/
+theorem toGbp_is_source (c : Cache) (d : Date) (a : CAmt) (r : Rat) (hc : a.cur ≠ "GBP") (hz : a.amt ≠ 0)
+    (hr : c.get (a.cur, d.y, d.m) = some r) : toGbpAmt c d a = .ok (Gen.fx_to_gbp a.amt r) := by
+  simp [toGbpAmt, hc, hz, hr, Gen.fx_to_gbp]
+
+theorem toGbp_guards_are_source (c : Cache) (d : Date) (a : CAmt) :
+    (a.cur = "GBP" → toGbpAmt c d a = .ok a.amt) ∧ (a.cur ≠ "GBP" → a.amt = 0 → toGbpAmt c d a = .ok 0) := by
+  constructor
+  · intro h; simp [toGbpAmt, h]
+  · intro h1 h2; simp [toGbpAmt, h1, h2]
 
 end Cgt.Formulas
